@@ -532,7 +532,7 @@ func addCov(r *vlib.Run, c stripCoverage) {
 }
 
 func c22Generated(r *vlib.Run) {
-	n := r.N(200, 3000)
+	n := r.N(500, 10000)
 	r.Par(n, func(i int) {
 		id := fmt.Sprintf("g/%d", i)
 		if !r.Want(id) {
